@@ -2,6 +2,10 @@ pub mod c01;
 pub mod c01_net;
 pub mod c02;
 pub mod c02_net;
+pub mod c11;
+pub mod c12;
+pub mod c13;
+pub mod stream_model;
 
 use crate::engine::{CheckResult, Ctx, Fail, Report};
 use serde_json::Value;
@@ -39,6 +43,43 @@ pub fn all() -> Vec<PropDef> {
             run: c02::run,
             replay: c02::replay,
             child: Some(c02::child),
+        },
+        PropDef {
+            id: "C11",
+            level: "exploration",
+            rule: c11::RULE,
+            assumptions: &[
+                "producer-side offsets are kept <= 2^63 and chunk lengths <= 2^48 (the property's stated bounds), so in_flight + chunk_len cannot overflow",
+                "the credit predicate is probed sequentially (expired deadline when the model says no, 5 s deadline when it says yes); blocking behaviour is C12's subject",
+            ],
+            run: c11::run,
+            replay: c11::replay,
+            child: None,
+        },
+        PropDef {
+            id: "C12",
+            level: "exploration",
+            rule: c12::RULE,
+            assumptions: &[
+                "interleavings are sampled on real threads, not enumerated (the lock-step model clause is outside this technique)",
+                "a 10 s watchdog on an obligation whose normal latency is microseconds is the hang signal",
+                "reconnect-waiter schedules contain no file advance, so a staged resume can only be consumed by the waiter",
+            ],
+            run: c12::run,
+            replay: c12::replay,
+            child: None,
+        },
+        PropDef {
+            id: "C13",
+            level: "exploration",
+            rule: c13::RULE,
+            assumptions: &[
+                "chunks are pushed with contiguous logical offsets (the documented producer contract; the ring debug-asserts it)",
+                "eviction tightness is not demanded: any retained set that is a suffix within capacity (or a single chunk) is accepted",
+            ],
+            run: c13::run,
+            replay: c13::replay,
+            child: None,
         },
     ]
 }
